@@ -879,7 +879,7 @@ pub fn replay(_engine: &str, case: &serde_json::Value) -> Result<(), String> {
 pub fn run(ctx: &Ctx) -> Report {
     let kn = load_known(&ctx.root);
     let known = Known { d2: known_open(&kn, "C11", KEY_D2), d4: known_open(&kn, "C11", KEY_D4), d4b: known_open(&kn, "C11", KEY_D4B) };
-    let (stats, failure) = run_proptest(ctx, "pci", 111, ctx.n(200_000, 5_000_000), case_strategy, |c: &PCase, st| check(c, st, &known));
+    let (stats, failure) = run_proptest(ctx, "pci", 111, ctx.n(200_000, 20_000_000), case_strategy, |c: &PCase, st| check(c, st, &known));
     Report {
         stats,
         failure,
